@@ -170,10 +170,12 @@ func openStorage(dir string, opt Options) (*storage, error) {
 func (s *storage) setTerm(term uint64) {
 	if s.term != term {
 		assert(term > s.term)
+		verifPoint(s, "term.pre")
 		if err := s.termVal.set(term, 0); err != nil {
 			panic(opError(err, "storage.setTermVote(%d, %d)", term, 0))
 		}
 		s.term, s.votedFor = term, 0
+		verifPoint(s, "term.post")
 	}
 }
 
@@ -182,6 +184,7 @@ var grantingVote = func(s *storage, term, candidate uint64) error { return nil }
 func (s *storage) setVotedFor(term, candidate uint64) {
 	if term != s.term || candidate != s.votedFor {
 		assert(term >= s.term)
+		verifPoint(s, "vote.pre")
 		err := grantingVote(s, term, candidate)
 		if err == nil {
 			err = s.termVal.set(term, candidate)
@@ -190,6 +193,7 @@ func (s *storage) setVotedFor(term, candidate uint64) {
 			panic(opError(err, "storage.setTermVote(%d, %d)", term, candidate))
 		}
 		s.term, s.votedFor = term, candidate
+		verifPoint(s, "vote.post")
 	}
 }
 
@@ -234,6 +238,7 @@ func (s *storage) appendEntry(e *entry) {
 	if err := s.log.Append(w.Bytes()); err != nil {
 		panic(opError(err, "Log.Append"))
 	}
+	verifPoint(s, "log.appended")
 	s.lastLogIndex, s.lastLogTerm = e.index, e.term
 }
 
@@ -241,6 +246,7 @@ func (s *storage) commitLog(n uint64) {
 	if err := s.log.CommitN(n); err != nil {
 		panic(opError(err, "Log.CommitN(%d)", n))
 	}
+	verifPoint(s, "log.flushed")
 }
 
 // never called with invalid index
@@ -249,6 +255,7 @@ func (s *storage) removeLTE(index uint64) error {
 	if err := s.log.RemoveLTE(index); err != nil {
 		return opError(err, "Log.RemoveLTE(%d)", index)
 	}
+	verifPoint(s, "log.compacted")
 	return nil
 }
 
@@ -276,6 +283,7 @@ func (s *storage) clearLog() error {
 	}
 	assert(s.log.LastIndex() == s.snaps.index)
 	assert(s.log.PrevIndex() == s.snaps.index)
+	verifPoint(s, "log.reset")
 	s.lastLogIndex, s.lastLogTerm = s.snaps.index, s.snaps.term
 	return nil
 }
@@ -288,6 +296,7 @@ func (s *storage) removeGTE(index, prevTerm uint64) {
 	}
 	assert(s.log.LastIndex() == index-1)
 	s.lastLogIndex, s.lastLogTerm = index-1, prevTerm
+	verifPoint(s, "log.truncated")
 }
 
 func (s *storage) bootstrap(config Config) (err error) {
